@@ -108,6 +108,28 @@ def main():
         if bad:
             break
     if not bad:
+        # two supported contexts: the first proposed with a role proposal, the second without one (and vice versa)
+        for prop in R.RQ_PROPOSALS[1:]:
+            for ac1 in R.AC_SETTINGS:
+                for ac2 in ((True, True), (False, True), (True, False), (None, None)):
+                    for order in (0, 1):
+                        proposed = [cx(1, ABS[0], [TS[0]]), cx(3, ABS[1], [TS[0]])]
+                        if order:
+                            proposed = [cx(1, ABS[1], [TS[0]]), cx(3, ABS[0], [TS[0]])]
+                        supported = [cx(None, ABS[0], [TS[0]], *ac1), cx(None, ABS[1], [TS[0]], *ac2)]
+                        n += 1
+                        b = check(proposed, supported, {ABS[0]: prop})
+                        if b:
+                            bad = dict(input={"proposed (id, abstract)": [(c.context_id, str(c.abstract_syntax)) for c in proposed],
+                                              "role proposal": {ABS[0]: prop}, "acceptor roles": {ABS[0]: ac1, ABS[1]: ac2}}, **b)
+                            break
+                    if bad:
+                        break
+                if bad:
+                    break
+            if bad:
+                break
+    if not bad:
         for k in (0, 1, 2):
             b = check([cx(2 * i + 1, ABS[i % 3], [TS[i % 3]]) for i in range(k)], [], {})
             if b:
